@@ -44,7 +44,74 @@ def gen_cases(tier, seed):
                 "order": str(rng.choice(["shuffled", "sorted", "reversed"])),
             }
         )
+    # the same fits requested through a joint model: per-dimension fit descriptions (method, weights - possibly omitted)
+    jrng = np.random.default_rng([seed, 13, 9])
+    for i in range(10 if tier == "quick" else 150):
+        cases.append({"kind": "joint", "sub": int(jrng.integers(1 << 31)), "n": int(jrng.choice([3000, 8000])), "w0": [None, "linear", "quadratic", "cubic", "omitted"][i % 5], "w1": ["omitted", None, "quadratic", "omitted", "linear"][(i // 2) % 5], "m0": ["wlsq", "lsq"][i % 2], "m1": ["lsq", "wlsq"][(i // 3) % 2], "delta1": [None, 2.0][(i // 2) % 2]})
     return cases
+
+
+def _joint(case, ctx):
+    """EW least squares asked for through GlobalHierarchicalModel.fit: every dimension is fitted with the weights its OWN
+    description declares (a description without a weights key means plain least squares)."""
+    from virocon import DependenceFunction, ExponentiatedWeibullDistribution as EW, GlobalHierarchicalModel, WidthOfIntervalSlicer
+
+    rng = np.random.default_rng(case["sub"])
+    n = case["n"]
+    x0 = 2.0 * rng.weibull(1.6, n) + 0.05
+    x1 = (1.0 + 0.8 * np.sqrt(x0)) * rng.weibull(2.2, n) + 0.02
+    X = np.c_[x0, x1]
+
+    def lin(x, a=1.0, b=0.5):
+        return a + b * x
+
+    kw1 = {} if case["delta1"] is None else {"f_delta": case["delta1"]}
+    descs = [
+        {"distribution": EW(f_delta=1.5), "intervals": WidthOfIntervalSlicer(1.0, min_n_points=100)},
+        {"distribution": EW(**kw1), "conditional_on": 0, "parameters": {"alpha": DependenceFunction(lin), "beta": DependenceFunction(lin)}},
+    ]
+    if case["delta1"] is None:
+
+        def const(x, c=2.0):
+            return c + 0 * x
+
+        descs[1]["parameters"]["delta"] = DependenceFunction(const)
+    fds = []
+    for m, w in ((case["m0"], case["w0"]), (case["m1"], case["w1"])):
+        fd = {"method": m}
+        if w != "omitted":
+            fd["weights"] = w
+        fds.append(fd)
+    ctx.cls("entry", "joint-model")
+    ctx.cls("weights", f"{case['w0']}/{case['w1']}")
+    ctx.sig = f"joint|{case['sub']}|{case['w0']}|{case['w1']}|{case['m0']}|{case['m1']}|{case['delta1']}"
+    ctx.nontrivial = True
+    model = GlobalHierarchicalModel(descs)
+    try:
+        model.fit(X, fit_descriptions=fds)
+    except RuntimeError as e:
+        if "Failed to fit dependence function" in str(e):
+            ctx.count("c13.joint-dependence-fit-failed-reported")
+        else:
+            raise
+    declared = [None if w == "omitted" else w for w in (case["w0"], case["w1"])]
+    # dimension 0: the marginal fit
+    d0 = model.distributions[0]
+    xs = np.sort(x0)
+    ra, rb = ref_alpha_beta(float(d0.delta), xs, _weights_for(declared[0], xs, None))
+    ctx.check("c13.joint-declared-weights", _close(float(d0.alpha), ra, 1e-6) and _close(float(d0.beta), rb, 1e-6), "joint fit, dimension 0: (alpha, beta) is not the regression with the weights declared for that dimension", declared=declared[0], got=[float(d0.alpha), float(d0.beta)], want=[float(ra), float(rb)])
+    # dimension 1: every interval
+    d1 = model.distributions[1]
+    bad = None
+    for k, (rows, est) in enumerate(zip(getattr(d1, "data_intervals", []), getattr(d1, "parameters_per_interval", []))):
+        xs = np.sort(np.asarray(rows, float))
+        ra, rb = ref_alpha_beta(float(est["delta"]), xs, _weights_for(declared[1], xs, None))
+        ctx.count("c13.joint-intervals")
+        if not (_close(float(est["alpha"]), ra, 1e-6) and _close(float(est["beta"]), rb, 1e-6)):
+            bad = {"interval": k, "got": [float(est["alpha"]), float(est["beta"])], "want": [float(ra), float(rb)], "delta": float(est["delta"])}
+            break
+    ctx.check("c13.joint-declared-weights", bad is None and len(getattr(d1, "parameters_per_interval", [])) > 0, "joint fit, dimension 1: a per-interval (alpha, beta) is not the regression with the weights declared for that dimension", declared=declared[1], declared_for_dimension_0=declared[0], witness=bad)
+    ctx.sample = {"kind": "joint", "n": n, "fit_descriptions": fds}
 
 
 # ----------------------------------------------------------------------
@@ -291,6 +358,9 @@ def _sample(case, rng):
 
 def run_case(case, ctx):
     from virocon import ExponentiatedWeibullDistribution as EW
+
+    if case.get("kind") == "joint":
+        return _joint(case, ctx)
 
     rng = np.random.default_rng(case["sub"])
     x = _sample(case, rng)
